@@ -12,7 +12,8 @@ T = {
                     "paths have the /name[n] form they assume; topicosvg is interpreted end to end on a schematic document using every supported feature (symbolic numbers, "
                     "paints and geometry): it completes, the result has only defs + paths + kept groups, absolute path data in the restricted letter set, every number "
                     "rounded, no clip-path/transform/style/junk left, kept groups carry only opacity and at least two children; on unconvertible documents it raises ValueError "
-                    "unless the tolerating option is given; CLI flags reach the gate under their own names; _simplify on four scenario documents marks clipped paths nonzero and "
+                    "unless the tolerating option is given; when the engine refuses an operation (PathOpsError injected into remove_overlaps / intersection / union) the conversion ends in an "
+                    "exception or still returns a conforming document (no evenodd path, no clip-path/stroke/transform left); CLI flags reach the gate under their own names; _simplify on four scenario documents marks clipped paths nonzero and "
                     "moves root presentation attributes into a wrapper instead of dropping them.",
         not_decided="conformance for document shapes outside the scenarios; finiteness of Skia's output coordinates",
         assumptions=["lxml serialisation is faithful", "the abstract DOM / XPath subset reproduces lxml for the query forms the package uses"],
@@ -21,7 +22,8 @@ T = {
         technique=_AI + ": render lists (geometry term, accumulated affine product, clip stack, paint) of schematic documents before and after resolve_use / resolve_nested_svgs / _simplify compared with a reference written from SVG 1.1; polynomial identities for the affine algebra",
         explanation="Affine2D algebra and the transform-list parser equal the SVG matrices (rules of C11). On schematic documents with symbolic transforms: traversal contexts "
                     "accumulate own-first-then-ancestors; after resolve_use every instance renders under translate(x,y) composed after the use's transform with the use's "
-                    "presentation attributes inherited; after resolve_nested_svgs the content renders under the viewport mapping (viewBox, preserveAspectRatio, x/y/width/height "
+                    "presentation attributes inherited - also when the target sits in the rendered tree inside a display:none container or inside a styled group (neither comes "
+                    "along with the instance); after resolve_nested_svgs the content renders under the viewport mapping (viewBox, preserveAspectRatio, x/y/width/height "
                     "with parent-extent fallback), clipped to the viewport unless overflow is visible, with the nested element's presentation attributes; in _simplify every emitted "
                     "piece went through apply_transform with the accumulated transform (and apply_transform maps the geometry through the engine with exactly that affine), "
                     "pieces stay in paint order, fill piece before stroke piece.",
@@ -34,6 +36,7 @@ T = {
                     "union(children) intersected with its own clip, under the referencing element's CTM; a child's clip stack extends its parent's and is resolved with the child's "
                     "CTM; in _simplify every piece (fill and stroke outline) is intersected with all stacked clips after stroking and transforming, the shape under its fill-rule "
                     "and every clip under its clip-rule, clip-path is removed; clip_to_viewbox pairs rules the same way; boolean-operation plumbing is C13 (re-run here). "
+                    "The clip-rule in effect at the referencing element (own attribute, style, inherited from a group, on a clipped group) does not reach the clipPath's children. "
                     "clip-rule set on the clipPath element itself is not inherited by its children: known finding F10.",
         not_decided="exactness of Skia's intersection / union",
         assumptions=["Skia's set operations are exact for the fill types it is given"],
@@ -80,7 +83,8 @@ T = {
     "C08": dict(
         technique=_AI + ": id and reference inventory of schematic documents after resolve_use / resolve_nested_svgs / _simplify / the pipeline",
         explanation="On schematic documents with shared and nested <use> targets, two levels of nested svg, gradient templates and clones, and ids colliding with generated names: no "
-                    "duplicate id after any stage, ids of the originals untouched, every url(#..)/href of the output resolves, no gradient left unreferenced, the gate reports duplicate ids. "
+                    "duplicate id after any stage, ids of the originals untouched, every url(#..)/href of the output resolves, no gradient left unreferenced, the gate reports duplicate ids; the same reference facts on a document without a view box "
+                    "(gradients used as fill, as stroke paint only, and by a shape that merely sits in defs; stroked shapes). "
                     "Known finding F5: orphan gradient after remove_unpainted_shapes.",
         not_decided="documents whose references are already dangling (premise of the property)",
         assumptions=["every reference in the source resolves"],
@@ -137,14 +141,15 @@ T = {
         technique=_AI + ": relational - the pipeline interpreted on a schematic document and on the same document with ignorable content inserted at every position; XML entry point interpreted",
         explanation="fromstring/parse hand the text to lxml once through a parser with remove_comments and remove_blank_text; the conversion of a document and of the same document with "
                     "comments, processing instructions, foreign-namespace elements and attributes, title/desc/metadata, whitespace text, reordered attributes and anonymous symbols added "
-                    "gives the same structure; the keep-or-flatten decision and traversal paths ignore comment/PI children.",
+                    "gives the same structure (the document has gradients that take stops and attributes from templates; processing instructions also sit inside gradients, stops, clip paths, "
+                    "shapes and <use>); the keep-or-flatten decision and traversal paths ignore comment/PI children.",
         not_decided="numbering of generated ids and last-digit rounding (allowed to differ by the property)",
         assumptions=[],
     ),
     "C15": dict(
         technique="typestate analysis of the shape cache over every public method from every cache state + " + _AI + ": relational - histories of 2-4 public operations interpreted with the object kept vs serialised and re-parsed between steps",
         explanation="Typestate (empty / populated-clean / populated-dirty): no tree read or write under unflushed edits, no reset discarding edits, a tree write under a populated cache is "
-                    "followed by reset/flush. Histories (256 quick, 2624 thorough) over editors, queries and cache-filling operations, functools caches and class-level state modelled: the "
+                    "followed by reset/flush. Histories (407 quick, about 2800 thorough) over editors, queries, cache-filling operations and operations that load the shapes and drop them without a flush before an ancestor is edited, functools caches and class-level state modelled: the "
                     "final serialisation and what the object reports about itself agree between the two variants; in-place forms return the receiver, copying forms leave it unchanged.",
         not_decided="histories longer than four operations; lxml's own serialisation; interleaving operations inside a consumer's loop over a traversal generator",
         assumptions=["xpath/xpath_one/resolve_url are pure queries"],
